@@ -2783,7 +2783,7 @@ fn gen_pathfuzz(seed: u64, tier: &str, rows: &[Row]) -> Vec<FuzzOp> {
             continue;
         }
         let base = instantiate(row, "ca1", true);
-        for pos in positions {
+        for pos in positions.iter().copied() {
             group += 1;
             let what = match &row.segs[pos] {
                 Seg::Param(n) | Seg::Opt(n) => n.clone(),
@@ -2807,6 +2807,34 @@ fn gen_pathfuzz(seed: u64, tier: &str, rows: &[Row]) -> Vec<FuzzOp> {
                 }
                 let m = if row.method == "OTHER" { "PUT" } else { row.method.as_str() };
                 ops.push(FuzzOp { group, line: format!("fuzz {} {} path=/{} what={}", row.idx, m, s2.join("/"), what) });
+            }
+        }
+        // pairs: two numeric parameter segments of one row take boundary values TOGETHER (a sum, a difference or a
+        // range of the two overflows only when both are extreme: `offset + rows`, `before - after`)
+        if row.end != "405" {
+            let numeric: Vec<usize> = positions
+                .iter()
+                .copied()
+                .filter(|&pos| pos < base.len() && !matches!(row.segs[pos], Seg::Rest) && base[pos].parse::<u64>().is_ok())
+                .collect();
+            const PAIR: [&str; 7] = ["0", "1", "2", "18446744073709551615", "18446744073709551614", "9223372036854775807", "9223372036854775808"];
+            for (i, &p1) in numeric.iter().enumerate() {
+                for &p2 in &numeric[i + 1..] {
+                    group += 1;
+                    let n = |pos: usize| match &row.segs[pos] {
+                        Seg::Param(n) | Seg::Opt(n) => n.clone(),
+                        _ => "rest".into(),
+                    };
+                    for a in PAIR {
+                        for b in PAIR {
+                            let mut s2 = base.clone();
+                            s2[p1] = a.to_string();
+                            s2[p2] = b.to_string();
+                            let m = if row.method == "OTHER" { "PUT" } else { row.method.as_str() };
+                            ops.push(FuzzOp { group, line: format!("fuzz {} {} path=/{} what=pair:{}+{}", row.idx, m, s2.join("/"), n(p1), n(p2)) });
+                        }
+                    }
+                }
             }
         }
     }
